@@ -195,3 +195,18 @@ Lemma get_queue_store_writeback s qn u d q : get_queue (store_writeback s qn u d
 Proof. unfold get_queue. destruct (store_writeback_frame s qn u d) as (_ & -> & _). reflexivity. Qed.
 Lemma get_msg_store_writeback s qn u d x : get_msg (store_writeback s qn u d) x = get_msg s x.
 Proof. unfold get_msg. destruct (store_writeback_frame s qn u d) as (_ & _ & -> & _). reflexivity. Qed.
+
+(* basic.cancel detaches the consumer's unsettled deliveries from its tag: nothing but u_ctag changes *)
+Lemma orphan_fields tag u :
+  u_tag (orphan tag u) = u_tag u /\ u_msg (orphan tag u) = u_msg u /\ u_qid (orphan tag u) = u_qid u /\
+  u_queue (orphan tag u) = u_queue u.
+Proof. unfold orphan. destruct (seqb (u_ctag u) tag); cbn; auto. Qed.
+
+Lemma map_orphan_tag tag l : map u_tag (map (orphan tag) l) = map u_tag l.
+Proof. rewrite map_map. apply map_ext. intros u. apply orphan_fields. Qed.
+Lemma map_orphan_msg tag l : map u_msg (map (orphan tag) l) = map u_msg l.
+Proof. rewrite map_map. apply map_ext. intros u. apply orphan_fields. Qed.
+Lemma map_orphan_qid tag l : map u_qid (map (orphan tag) l) = map u_qid l.
+Proof. rewrite map_map. apply map_ext. intros u. apply orphan_fields. Qed.
+Lemma map_orphan_queue tag l : map u_queue (map (orphan tag) l) = map u_queue l.
+Proof. rewrite map_map. apply map_ext. intros u. apply orphan_fields. Qed.
